@@ -256,7 +256,7 @@ pub fn run(sim: &Sim, _idx: u64) {
             3 => Streaming::new_empty(dec, body),
             _ => Streaming::new_response(dec, body, status, tenc, limit),
         };
-        drain_stream(sim, &mut s, &|m: &Msg| m.encode_to_vec(), extra, 64)
+        drain_stream(sim, &mut s, &|m: &Msg| m.encode_to_vec(), extra, data.len() / 5 + 16)
     } else {
         let mut codec = RawCodec(RawCfg { dec_buffer, ..RawCfg::default() });
         let dec = codec.decoder();
@@ -265,7 +265,7 @@ pub fn run(sim: &Sim, _idx: u64) {
             3 => Streaming::new_empty(dec, body),
             _ => Streaming::new_response(dec, body, status, tenc, limit),
         };
-        drain_stream(sim, &mut s, &|m: &RawMsg| m.0.to_vec(), extra, 64)
+        drain_stream(sim, &mut s, &|m: &RawMsg| m.0.to_vec(), extra, data.len() / 5 + 16)
     };
 
     // ---- oracle ----
